@@ -42,7 +42,7 @@ FAULTS = [
     "@echo", "@echo 1, 2", "@die", "@die 1", "@assert", "@assert 0", "@assert 0, 5", "@assert fwd6, \"late\"\n@defn fwd6, 0", "@entropy", "@db @entropy", "@isdef", "@db @isdef 5", "@db @isdef",
     "@here", "@db @here @here", "@meta", "@meta \"k\"", "@meta 5 5", "@meta \"k\" \"v\",", "@endmeta\n@endmeta",
     "\\", "@db 1 \\", "@db \\\n\\\n\\", "@db 1 \\ 2", "'", "\"", "'ab", "\"abc", "'\\$4'", "\"\\$4\"", "\"\\$", "$", "%", "@", "@db 99999999999", "@db $100000000", "@db 'abcde'", "@db ''", "@db 'ééé'", "@db '😀😀'",
-    "=", "@db 1 = 2", "`", "§", "\x00", "@db \"\x00\"", "\ufeff@db 1",
+    "\\\"\\", "\\\"", "\\ \"abc\\", "=", "@db 1 = 2", "`", "§", "\x00", "@db \"\x00\"", "\ufeff@db 1",
 ]
 
 def nest(kind, depth):
